@@ -375,3 +375,38 @@ package graph
 //@     invariant forall a in 0..i: forall b in 0..a: absAdj(g, a, b) ==> colouring[a] != colouring[b]
 //@     invariant forall k in 0..rangeindex+1: neighbours[k] <= i && colouring[neighbours[k]] != colouring[i]
 //@     decreases len(neighbours) - rangeindex
+
+// ---- Graph6Encode (C07): size header, length, alphabet and termination for every graph
+// seen through the interface view (bit contents are covered by the bounded stand-in).
+//@ func Graph6Encode
+//@   requires absN(g) <= 4096
+//@   ensures forall t in 0..len(result): 63 <= result[t] && result[t] <= 126
+//@   ensures hdrN(result, 0) == absN(g)
+//@   ensures absN(g) <= 1 ==> len(result) == 1
+//@   ensures absN(g) >= 2 ==> len(result) == g6hdrLen(result, 0) + (tri(absN(g)) + 5) / 6
+//@   ensures absN(g) >= 2 ==> g6hdrLen(result, 0) == (absN(g) <= 62 ? 1 : 4)
+//@   ensures forall a in 1..absN(g): forall c in 0..a: g6bit(result, (absN(g) <= 62 ? 1 : 4), tri(a) + c) == (absAdj(g, a, c) ? 1 : 0)
+//@   ensures absN(g) >= 2 ==> forall p in tri(absN(g))..6 * ((tri(absN(g)) + 5) / 6): g6bit(result, (absN(g) <= 62 ? 1 : 4), p) == 0
+//@   opt lemmas=absSimple,triMono
+//@   opt axiomatize=tri
+//@   opt splitfirst=all
+//@   loop 1
+//@     invariant 1 <= i && i <= n && n == absN(g) && 2 <= n && n <= 4096 && fresh(s)
+//@     invariant 0 <= bIndex && bIndex < 6 && 0 <= b && b < 64 && b % pow2(6 - bIndex) == 0
+//@     invariant len(s) == (n <= 62 ? 1 : 4) + tri(i) / 6 && bIndex == tri(i) % 6
+//@     invariant forall t in 0..len(s): 63 <= s[t] && s[t] <= 126
+//@     invariant hdrN(s, 0) == n && g6hdrLen(s, 0) == (n <= 62 ? 1 : 4)
+//@     invariant forall a in 1..i: forall c in 0..a: tri(a) + c < 6 * (tri(i) / 6) ==> g6bit(s, (n <= 62 ? 1 : 4), tri(a) + c) == (absAdj(g, a, c) ? 1 : 0)
+//@     invariant forall a in 1..i: forall c in 0..a: 6 * (tri(i) / 6) <= tri(a) + c ==> (b / pow2(5 - (tri(a) + c) % 6)) % 2 == (absAdj(g, a, c) ? 1 : 0)
+//@     use triStep(i-1)
+//@     decreases n - i
+//@   loop 2
+//@     invariant 1 <= i && i < n && n == absN(g) && 2 <= n && n <= 4096 && 0 <= j && j <= i && fresh(s)
+//@     invariant 0 <= bIndex && bIndex < 6 && 0 <= b && b < 64 && b % pow2(6 - bIndex) == 0
+//@     invariant len(s) == (n <= 62 ? 1 : 4) + (tri(i) + j) / 6 && bIndex == (tri(i) + j) % 6
+//@     invariant forall t in 0..len(s): 63 <= s[t] && s[t] <= 126
+//@     invariant hdrN(s, 0) == n && g6hdrLen(s, 0) == (n <= 62 ? 1 : 4)
+//@     invariant forall a in 1..i+1: forall c in 0..a: tri(a) + c < 6 * ((tri(i) + j) / 6) ==> g6bit(s, (n <= 62 ? 1 : 4), tri(a) + c) == (absAdj(g, a, c) ? 1 : 0)
+//@     invariant forall a in 1..i+1: forall c in 0..a: (6 * ((tri(i) + j) / 6) <= tri(a) + c && tri(a) + c < tri(i) + j) ==> (b / pow2(5 - (tri(a) + c) % 6)) % 2 == (absAdj(g, a, c) ? 1 : 0)
+//@     use triStep(i-1)
+//@     decreases i - j
